@@ -84,3 +84,71 @@ Print Assumptions C09_tokens_aligned_in_every_factory.
 Example C09_fresh_edge_ok : forall k m c, StoreB.is_belt k = false ->
   StoreBWeak.WN (StoreB.init k m c) /\ StoreB.next (StoreB.init k m c) = 0%nat.
 Proof. intros k m c NB. split; [apply StoreBWeak.init_wn; exact NB|reflexivity]. Qed.
+
+(* ---- the non-blocking half at the level of the process blocks (theories/Factory/FactoryBlocks.v; every world, no
+   reachability assumption): the block that runs when an item is ready -- the machine worker whose processing timer
+   has fired, the source that has just created the item -- under FIRST_AVAILABLE output in non-blocking mode.
+   No out-edge has room: the item is dropped in that very block, exactly one discard is counted and one discard entry
+   written for exactly that item, and no edge is touched (nothing reserved, nothing put). *)
+From FV Require FactoryBlocks.
+From RecordUpdate Require Import RecordUpdate.
+Import World.
+Open Scope Z_scope.
+Theorem C09_nonblocking_worker_drops_at_once :
+  forall w p,
+  let n := pown (Factory.me w p) in let nd := get_node w n in
+  ppc (Factory.me w p) = 1%nat -> noutsel nd = PFirst -> nblocking nd = false ->
+  Factory.first_can_put w (nouts nd) = None -> (n < length (wnodes w))%nat ->
+  let w' := fst (Factory.worker_block w p) in
+  FactoryBlocks.edges_untouched w w' /\
+  wlog w' = wlog w ++ [LDiscard (wnow w) n (pit (Factory.me w p))] /\
+  ndisc (get_node w' n) = S (ndisc nd).
+Proof. exact FactoryBlocks.worker_nonblocking_drops. Qed.
+Print Assumptions C09_nonblocking_worker_drops_at_once.
+
+(* Some out-edge has room: nothing is dropped or counted, no edge is touched by this block, and one push process is
+   started, for exactly this item and the FIRST out-edge whose probe says yes (C09_probe_yes_then_no_wait: its
+   reservation is granted in the call and its event is already triggered) *)
+Theorem C09_nonblocking_worker_pushes_to_first_with_room :
+  forall w p e,
+  let n := pown (Factory.me w p) in let nd := get_node w n in
+  ppc (Factory.me w p) = 1%nat -> noutsel nd = PFirst -> nblocking nd = false ->
+  Factory.first_can_put w (nouts nd) = Some e -> (p < length (wprocs w))%nat ->
+  let w' := fst (Factory.worker_block w p) in
+  FactoryBlocks.edges_untouched w w' /\ wlog w' = wlog w /\ ndisc (get_node w' n) = ndisc nd /\
+  length (wprocs w') = S (length (wprocs w)) /\
+  let q := nth (length (wprocs w)) (wprocs w') proc0 in
+  pkd q = KPush /\ pown q = n /\ pit q = pit (Factory.me w p) /\ pix q = e /\ ppc q = 0%nat /\ palive q = true.
+Proof. exact FactoryBlocks.worker_nonblocking_pushes. Qed.
+Print Assumptions C09_nonblocking_worker_pushes_to_first_with_room.
+
+Theorem C09_nonblocking_source_drops_at_once :
+  forall w p,
+  let n := pown (Factory.me w p) in let nd := get_node w n in
+  ppc (Factory.me w p) = 2%nat -> noutsel nd = PFirst -> nblocking nd = false ->
+  Factory.first_can_put w (nouts nd) = None -> (n < length (wnodes w))%nat ->
+  let item := length (witems w) in
+  let w' := fst (Factory.source_block w p) in
+  wedges w' = wedges w /\
+  witems w' = witems w ++ [item0 <| i_src := n |> <| i_pallet := npallet nd |>] /\
+  wlog w' = wlog w ++ [LGen (wnow w) n item; LDiscard (wnow w) n item;
+                       LDraw n 0 (stream_at (ndelays nd) (ndptr nd))] /\
+  ndisc (get_node w' n) = S (ndisc nd).
+Proof. exact FactoryBlocks.source_nonblocking_drops. Qed.
+Print Assumptions C09_nonblocking_source_drops_at_once.
+
+Theorem C09_nonblocking_source_pushes_to_first_with_room :
+  forall w p e,
+  let n := pown (Factory.me w p) in let nd := get_node w n in
+  ppc (Factory.me w p) = 2%nat -> noutsel nd = PFirst -> nblocking nd = false ->
+  Factory.first_can_put w (nouts nd) = Some e -> (p < length (wprocs w))%nat ->
+  let item := length (witems w) in
+  let w' := fst (Factory.source_block w p) in
+  wedges w' = wedges w /\
+  wlog w' = wlog w ++ [LGen (wnow w) n item] /\
+  ndisc (get_node w' n) = ndisc nd /\
+  length (wprocs w') = S (length (wprocs w)) /\
+  let q := nth (length (wprocs w)) (wprocs w') proc0 in
+  pkd q = KPush /\ pown q = n /\ pit q = item /\ pix q = e /\ ppc q = 0%nat /\ palive q = true.
+Proof. exact FactoryBlocks.source_nonblocking_pushes. Qed.
+Print Assumptions C09_nonblocking_source_pushes_to_first_with_room.
